@@ -137,7 +137,10 @@ def groupHasNaN (g : List String) : Bool :=
 def statsAreNumbers (valid : Bool) (impl : List (List String)) : List String :=
   if !valid then [] else
   match impl with
-  | _ :: _ :: _ :: st :: _ => if st.head? == some "ok" && groupHasNaN st then ["reported-statistics-contain-NaN"] else []
+  | _ :: _ :: _ :: st :: _ =>
+    (if st.head? == some "ok" && groupHasNaN st then ["reported-statistics-contain-NaN"] else []) ++
+    -- strictly positive data (subnormals included) are never rejected as non-positive, by any call style
+    (if impl.any (fun g => g.take 2 == ["err", "NonPositiveValue"]) then ["positive-data-rejected-as-NonPositiveValue"] else [])
   | _ => []
 
 /-- compare two intervals of the implementation bound-wise through `f` with a relative tolerance -/
